@@ -64,6 +64,8 @@ def samples():
     np_("squeeze", np.squeeze, a[:, :1])
     np_("transpose", np.transpose, a)
     S[("np_fresh", "issubdtype")] = ([], lambda: np.issubdtype(a.dtype, np.integer))
+    S[("np_fresh", "finfo")] = ([], lambda: np.finfo(a.dtype))
+    S[("np_fresh", "iinfo")] = ([], lambda: np.iinfo(np.int64))
 
     S[("fresh", "qr")] = ([a], lambda: qr(a, pivoting=True))
     S[("fresh", "solve")] = ([sq, v[:4]], lambda: solve(sq, v[:4]))
